@@ -154,6 +154,9 @@ def to_spec(it):
 
 
 def evaluate(item):
+    if isinstance(item, dict) and item.get("kind") == "wide":
+        from mc.props import wide
+        return wide.eval_c04(item)
     spec = to_spec(item)
     deps = RefDeps(spec)
     if deps.unresolved:
@@ -194,6 +197,8 @@ def trait(item, clause, detail, fid):
 def run(ctx):
     st = Stats()
     explore(ctx, universe(ctx.tier), "mc.props.c04:evaluate", st, payload=payload, sample_of=sample, trait=trait)
+    from mc.props import wide
+    wide.sweep(ctx, st, "C04")
     common.vacuity_guard(ctx, st, frac=0.6)
     cov = st.coverage(
         "product universe: 5 tree shapes (<= 4 leaves, <= 2 container levels) x every set of <= 2 (thorough: <= 3) "
@@ -201,7 +206,7 @@ def run(ctx):
         "absolute / precedes) x pin (none / dated container / dated leaf; backward projects: deadline on the first container) x resources x {ASAP, ALAP, ALAP with explicit sink ends}; "
         "states = distinct schedule observations; transitions = placements + bookings; non-trivial = some checked edge is tight "
         "(dependent starts within one slot of its bound)")
-    return ctx.finish(cov, ASSUME)
+    return ctx.finish(cov, ASSUME + [wide.NOTE])
 
 
 def replay(path):
